@@ -8,6 +8,45 @@ from wordseg.separator import Separator
 
 LEVELS = ['phone', 'syllable', 'word']
 
+# the characters the documentation of Separator declares forbidden in separators (class docstring of
+# wordseg/separator.py: "The following characters are forbidden in separators", 17 characters once the docstring escapes are read),
+# written out here independently of Separator.forbidden_chars
+FORBIDDEN = '!#$%&\'*+-.^`|~:\\"'
+assert len(FORBIDDEN) == 17 and len(set(FORBIDDEN)) == 17
+
+TRAILING_STYLES = ('compact', 'padded', 'fullpad')     # every token is followed by its separator
+
+
+def styles_for(sep):
+    """the joinings of seplib.render that are inside the quantifier for this triple: compact and joined
+    always; space-padded ones whenever there is a separator to pad and the space is not itself a separator above
+    the lowest level (fullpad puts spaces between phones, so it needs a phone separator)"""
+    st = ['compact', 'joined'] + sl.padded_styles(sep)
+    return st
+
+
+def peel(utt, xs):
+    """reference stripping: whitespace and whole occurrences of the separators xs are taken off both ends
+    until neither end has any; the text in between is returned as it is"""
+    xs = [x for x in xs if x]
+    s = utt
+    while True:
+        t = s.strip()
+        for x in xs:
+            while t.startswith(x):
+                t = t[len(x):]
+            while t.endswith(x):
+                t = t[:len(t) - len(x)]
+        if t == s:
+            return s
+        s = t
+
+
+def one_space(s):
+    while '  ' in s:
+        s = s.replace('  ', ' ')
+    return s
+
 
 def dec_tree(j):
     if j[0] == 0:
@@ -60,7 +99,7 @@ def ctor_case(sep, family):
 
     def oracle(out):
         ds = [x for x in sep if x]
-        bad = len(ds) != len(set(ds)) or any(c in x for x in ds for c in Separator.forbidden_chars)
+        bad = len(ds) != len(set(ds)) or any(c in x for x in ds for c in FORBIDDEN)
         if bad and out != ('raise', 'ValueError'):
             return 'duplicated or forbidden separator accepted'
         if not bad and out[0] != 'ok':
@@ -83,12 +122,14 @@ def spurious_occurrence(tree, sep, utt):
     return any(x and occ(x) > want[i] for i, x in enumerate(sep))
 
 
-def tree_cases(tree, sep, style, family):
-    """well-formed joined utterance: the property oracle applies"""
-    utt = sl.render(tree, sep, style)
-    cls = (lambda out: {'spurious_separator_occurrence'} if style == 'compact' and spurious_occurrence(tree, sep, utt) else set())
+def tree_cases(tree, sep, style, family, lead='', trail=''):
+    """well-formed joined utterance, possibly surrounded by whitespace: the property oracle applies"""
+    bare = sl.render(tree, sep, style)
+    utt = lead + bare + trail
+    cls = (lambda out: {'spurious_separator_occurrence'} if style == 'compact' and spurious_occurrence(tree, sep, bare) else set())
     defined = [l for l, x in zip(LEVELS, sep) if x]
-    want = {'phone': sl.phones_of(tree, sep), 'syllable': sl.sylls_of(tree, sep), 'word': sl.words_of(tree) if sep[2] else [''.join(sl.words_of(tree))]}
+    plain = ''.join(sl.words_of(tree))
+    want = {'phone': sl.phones_of(tree, sep), 'syllable': sl.sylls_of(tree, sep), 'word': sl.words_of(tree) if sep[2] else [plain]}
     out = []
     for level in defined:
         def orc(o, level=level):
@@ -108,12 +149,22 @@ def tree_cases(tree, sep, style, family):
                 return 'tokenize(%s, keep_boundaries=True) tokens do not reduce to the original tokens' % level
             return None
         out.append(case(1, sep, utt, level, True, family, orc_keep))
+    for level in LEVELS:
+        if level not in defined:
+            # a level the triple leaves undefined (all three when nothing is defined): correspondence
+            out.append(case(1, sep, utt, level, False, family))
 
     def orc_nested(o):
         if o[0] != 'ok':
             return 'nested tokenize raised ' + o[1]
-        lowest = defined[0]
         flat = [x for x in flatten(o[1]) if x]
+        if not defined:
+            # no level defined: no flat tokenization exists; the utterance itself is the only token
+            # (the statement says nothing about its surrounding whitespace)
+            if [x.strip() for x in flat] != [plain]:
+                return 'nested tokenization without any level = %r, the utterance is %r' % (o[1], plain)
+            return None
+        lowest = defined[0]
         if flat != want[lowest]:
             return 'nested tokenization flattens to %r, flat tokenization is %r' % (flat, want[lowest])
         return None
@@ -122,34 +173,78 @@ def tree_cases(tree, sep, style, family):
     def orc_remove(o):
         if o[0] != 'ok':
             return 'remove raised ' + o[1]
-        if o[1].replace(' ', '') != ''.join(sl.words_of(tree)):
-            return 'remove() = %r is not the plain concatenation' % (o[1],)
-        if style == 'compact' and o[1] != ''.join(sl.words_of(tree)):
-            return 'remove() of a compact utterance left spaces: %r' % (o[1],)
+        got = o[1].strip() if lead or trail else o[1]      # whitespace around the utterance is not a separator
+        if got != plain:
+            return 'remove() = %r is not the plain concatenation %r' % (o[1], plain)
         return None
     out.append(case(3, sep, utt, None, False, family, orc_remove))
     for level in defined:
-        others = [l for l in defined if l != level]
+        x = sep[LEVELS.index(level)]
+        # the levels whose tokens must survive remove(level): the higher ones always; the lower ones too when
+        # every token carries its own trailing separator (otherwise neighbours are necessarily concatenated)
+        others = [l for l in defined if l != level and (LEVELS.index(l) > LEVELS.index(level) or style in TRAILING_STYLES)]
 
-        def orc_local(o, level=level, others=others, kind='remove'):
+        def orc_rm(o, level=level, others=others, x=x):
             if o[0] != 'ok':
-                return '%s(%s) raised %s' % (kind, level, o[1])
+                return 'remove(%s) raised %s' % (level, o[1])
+            # nothing but the occurrences of this level's separator goes away (runs of spaces count as one space)
+            ref = utt.replace(x, '')
+            if one_space(o[1]) != one_space(ref):
+                return 'remove(%s) = %r, the utterance without its %s separators is %r' % (level, o[1], level, ref)
             s = mk(sep)
             for l2 in others:
-                # tokens at the other levels are unchanged
-                a = [t for t in s.tokenize(o[1], l2, keep_boundaries=False)]
-                if LEVELS.index(l2) > LEVELS.index(level) or kind == 'strip':
-                    if a != want[l2] and kind == 'remove':
-                        return 'remove(%s) changed the %s tokens: %r' % (level, l2, a)
+                # (tokenize is judged by its own cases: padding spaces it leaves inside a token are not remove's doing)
+                a = [t.replace(' ', '') for t in s.tokenize(o[1], l2, keep_boundaries=False)]
+                if a != want[l2]:
+                    return 'remove(%s) changed the %s tokens: %r' % (level, l2, a)
             return None
-        out.append(case(3, sep, utt, level, False, family, orc_local))
-        out.append(case(4, sep, utt, level, False, family))
+        out.append(case(3, sep, utt, level, False, family, orc_rm))
+
+        def orc_strip(o, level=level, x=x):
+            if o[0] != 'ok':
+                return 'strip(%s) raised %s' % (level, o[1])
+            ref = peel(utt, [x])
+            if o[1] != ref:
+                return 'strip(%s) = %r; without leading/trailing %s separators and whitespace the utterance is %r' % (level, o[1], level, ref)
+            return None
+        out.append(case(4, sep, utt, level, False, family, orc_strip))
         out.append(case(5, sep, utt, level, False, family))
         out.append(case(5, sep, utt, level, True, family))
-    out.append(case(4, sep, utt, None, False, family))
+
+    def orc_strip_all(o):
+        if o[0] != 'ok':
+            return 'strip() raised ' + o[1]
+        ref = peel(utt, sep)
+        if o[1] != ref:
+            return 'strip() = %r; without leading/trailing separators and whitespace the utterance is %r' % (o[1], ref)
+        return None
+    out.append(case(4, sep, utt, None, False, family, orc_strip_all))
     for c in out:
         c['classes'] = cls
         c['site'] = 'separator.tokenize' if cls(None) else c['site']
+    if style != 'compact' and sep[0] != ' ':
+        # space-padded joining whose spaces are not phone separators: a failure that consists only of padding
+        # spaces left inside the returned tokens is one class of its own
+        for c in out:
+            lv = c['desc']['level']
+            if c['site'] == 'separator.remove' and lv is None:
+                c['classes'] = (lambda o: {'padding_space_inside_token'} if o[0] == 'ok' and ''.join(o[1].split()) == plain else set())
+            if c['site'] == 'separator.tokenize' and lv in defined and not c['desc']['keep']:
+                c['classes'] = (lambda o, lv=lv: {'padding_space_inside_token'} if o[0] == 'ok' and o[1] != want[lv]
+                                and [t.replace(' ', '') for t in o[1]] == want[lv] else set())
+    return out
+
+
+def forbidden_ctor_cases():
+    """every forbidden character, alone and inside a longer separator, at each level, next to legal or undefined levels"""
+    out = []
+    for c in FORBIDDEN:
+        for lvl in range(3):
+            for form in (c, 'x' + c, c + 'y', 'a' + c + 'b', c + c, ';e' + c + 'word'):
+                for base in (['_', ';esyll', ';eword'], [None, None, None], [' ', None, '@@']):
+                    sep = list(base)
+                    sep[lvl] = form
+                    out.append(ctor_case(tuple(sep), 'ctor-forbidden'))
     return out
 
 
@@ -158,26 +253,40 @@ def main():
     failures = ck.prove()
     rng = ck.rng
     cases = []
-    seps = list(sl.SEPARATORS) + [('_', ';esyll', None), (' ', None, None), (None, ';esyll', None)]
+    seps = list(sl.SEPARATORS) + [('_', ';esyll', None), (' ', None, None), (None, ';esyll', None), (None, None, None)]
     for c in load_corpus('C08'):
         cases.extend(tree_cases(c['tree'], tuple(c['sep']), c.get('style', 'compact'), 'corpus'))
     ntrees = 400 if ck.thorough else 45
+    leads, trails = ['', ' ', '  ', '\t'], ['', ' ', '\n', ' \n', '  ', '\t\n']
     for k in range(ntrees):
         fam = ['ascii', 'multi', 'ipa', 'sepfrag'][k % 4]
         tree = sl.rand_tree(rng, sl.PHONES[fam])
-        for sep in seps:
+        for j, sep in enumerate(seps):
             if not sl.tree_ok(tree, sep):
                 continue
-            styles = ['compact', 'joined'] + (['padded', 'joined-padded'] if sep[0] == ' ' else [])
-            for st in styles:
+            allst = styles_for(sep)
+            # compact, one of the other joinings in rotation (two in the thorough tier), and one whitespace-surrounded
+            # rendering (two in the thorough tier), so that every joining meets every triple
+            r = k // 4 + j
+            styles = ['compact', allst[1 + r % (len(allst) - 1)]]
+            ws_styles = [allst[(k // 4 + 2 * j) % len(allst)]]
+            if ck.thorough:
+                styles.append(allst[1 + (r + 1) % (len(allst) - 1)])
+                ws_styles.append(allst[(k // 4 + 2 * j + 1) % len(allst)])
+            for st in dict.fromkeys(styles):
                 cases.extend(tree_cases(tree, sep, st, 'tree-%s-%s' % (fam, st)))
+            for st in ws_styles:
+                lead, trail = rng.choice(leads), rng.choice(trails)
+                if not lead and not trail:
+                    trail = '\n'
+                cases.extend(tree_cases(tree, sep, st, 'ws-%s-%s' % (fam, st), lead, trail))
     # variants outside the proved fragment: surrounding whitespace, missing trailing
     # separators, tokens that contain separator fragments (correspondence only)
     for k in range(3000 if ck.thorough else 400):
         sep = rng.choice(seps)
         fam = rng.choice(list(sl.PHONES))
         tree = sl.rand_tree(rng, sl.PHONES[fam])
-        utt = sl.render(tree, sep, rng.choice(['compact', 'padded']))
+        utt = sl.render(tree, sep, rng.choice(['compact', 'padded', 'joined', 'joined-padded']))
         mode = rng.randint(0, 4)
         if mode == 0:
             utt = ' ' * rng.randint(0, 2) + utt + rng.choice(['', ' ', '\n', ' \n'])
@@ -189,23 +298,26 @@ def main():
         elif mode == 3:
             utt = utt.replace(' ', '  ', 1)
         kind = rng.choice([1, 1, 2, 3, 4, 5])
-        level = rng.choice([l for l, x in zip(LEVELS, sep) if x] + ([None] if kind in (3, 4) else []) + (LEVELS if rng.random() < 0.1 else []))
+        level = rng.choice([l for l, x in zip(LEVELS, sep) if x] + ([None] if kind in (3, 4) else []) + (LEVELS if rng.random() < 0.1 or not any(sep) else []))
         if kind in (1, 5) and level is None:
             level = 'word'
         cases.append(case(kind, sep, utt, level if kind != 2 else None, rng.random() < 0.5, 'variant-%d' % mode))
     # constructor
-    pool = [None, '', ' ', '_', ';esyll', ';eword', 'a', 'ab', '.', 'a-b', 'x|y', '#', '!', '~', '"', "'", '\\', 'w', '§']
+    pool = [None, '', ' ', '_', ';esyll', ';eword', 'a', 'ab', 'x|y', 'a-b', 'w', '§', '@@', '/'] + list(FORBIDDEN)
     for k in range(1500 if ck.thorough else 250):
         cases.append(ctor_case((rng.choice(pool), rng.choice(pool), rng.choice(pool)), 'ctor'))
+    cases.extend(forbidden_ctor_cases())
     for c in cases:
         ck.count('family:' + c['desc']['family'])
     correspond(ck, cases)
     n, problems = ck.coq_recheck()
     finish_proof_failures(ck, failures + problems)
     return ck.finish(
-        rule='%d random word/syllable/phone trees x %d separator triples (levels undefined in every combination, multi-character, non-ASCII, space as phone/syllable/word separator) '
-             'x compact/padded joining through tokenize (3 levels x keep_boundaries), nested tokenize, remove, strip, split with the property oracle; '
-             'variants (surrounding whitespace, missing trailing separator, injected separators, doubled spaces) and constructor triples as correspondence. '
+        rule='%d random word/syllable/phone trees x %d separator triples (levels undefined in every combination including all three, multi-character, non-ASCII, space as phone/syllable/word separator) '
+             'x compact / joined / space-padded joining (padded, joined-padded, fullpad for every phone separator that leaves the space free), plain and surrounded by whitespace, through tokenize '
+             '(3 levels x keep_boundaries), nested tokenize, remove() and remove(level) at every level, strip() and strip(level) (reference: only leading/trailing separators of the level and whitespace go), '
+             'split, with the property oracle; variants (missing trailing separator, injected separators, doubled spaces) as correspondence; constructor triples over a pool holding the 17 forbidden '
+             'characters of the documentation (independent list), each also alone and inside longer separators at each level. '
              'Every case counts as non-trivial (each exercises a distinct (tree, separator, method)).' % (ntrees, len(seps)),
         assumptions=['separators are regex-literal strings (no regex metacharacters): re.split/re.sub on them are literal split/replace'])
 
